@@ -29,6 +29,8 @@ NRT_RULES = [
     (r"for token in tokens:\n    if token\.map:\n        token\.map = \[token\.map\[0\] \+ lineno, token\.map\[1\] \+ lineno\]",
      ("let", "tokens", "map (shift_tok lineno) tokens")),
     (r"current_heading_offset = self\._heading_offset", ("let", "current_heading_offset", "hoff s", "0")),
+    (r"self\._heading_offset = current_heading_offset \+ heading_offset",
+     ("state", "set_hoff (current_heading_offset + heading_offset) s")),
     (r"self\._heading_offset = (\w+)", ("state", "set_hoff {0} s")),
     (r"current_level_to_section = dict\(self\._level_to_section\.items\(\)\)",
      ("let", "current_level_to_section", "lmap s", "[]")),
@@ -279,8 +281,8 @@ def generate(repo: Path) -> str:
                 ["self", "block", "input_offset", "node", "match_titles", "state_machine_class", "state_machine_kwargs"])
     w = Walker(NP_RULES, [], final="Ok (node, s)", with_rules=NP_WITH, inner_final="Ok s")
     out.append("(* MockState.nested_parse; lineno = self._lineno *)\n"
-               "Definition nested_parse_src (lineno : N) (block : list str) (input_offset : nat) (node : node)\n"
-               "    (match_titles : bool) (s : st env) : res (node * st env) :=\n" + w.block(list(fn.body)) + ".\n")
+               "Definition nested_parse_src (lineno : N) (block : list str) (input_offset : nat) (node : Nest.node)\n"
+               "    (match_titles : bool) (s : st env) : res (Nest.node * st env) :=\n" + w.block(list(fn.body)) + ".\n")
     out.append(STATIC_MID)
 
     fn = method(base, "DocutilsRenderer", "run_directive",
